@@ -282,6 +282,14 @@ private def field (out : Sexp) (name : String) : Sexp :=
     | _ => .atom "missing"
   | _ => .atom "missing"
 
+private def fieldList (out : Sexp) (name : String) : List Sexp :=
+  match out with
+  | .list (.atom "out" :: fs) =>
+    match fs.find? (fun f => match f with | .list (.atom n :: _) => n == name | _ => false) with
+    | some (.list (_ :: vs)) => vs
+    | _ => []
+  | _ => []
+
 private def bucket (n : Nat) : String :=
   if n == 0 then "n0" else if n == 1 then "n1" else if n < 8 then "n2-7" else if n < 32 then "n8-31"
   else if n < 256 then "n32-255" else if n < 5000 then "n256-4999" else "n-huge"
@@ -302,6 +310,10 @@ def handle (inp out : Sexp) : CaseResult :=
     let rDbl := decodeR (field out "dbl")
     let rRot := decodeR (field out "rot")
     let conc := field out "conc"
+    let sibD := (fieldList out "sibd").map decodeR
+    let sibM := (fieldList out "sibm").map decodeR
+    let rApd := decodeR (field out "apd")
+    let explicitS := field out "explicit"
     let tol : Float := 1e-12
     -- the model request
     let left := if q.kind.padded then padSamples fmulF q.padL q.rate else 0
@@ -401,7 +413,33 @@ def handle (inp out : Sexp) : CaseResult :=
     let tolRot : Float := if detZero then 1e-12 else 1e-10
     let specDbl := !q.light || pairwise rDbl rDirect (fun v => ⟨2.0 * v.re, 2.0 * v.im⟩) tol
     let specRot := !q.light || pairwise rRot rDirect (fun v => ⟨-v.im, v.re⟩) tolRot
-    let specOk := specCount && specShape && specKnown && specPartial && specZero && specLinear && specDbl && specRot
+    -- (h) sibling entry points (struct-level trait impls, Waveform::from_parameters, WaveformInvocation →
+    --     Waveform::new → try_evaluate) return bit for bit what the enum-level entry points return
+    let specSiblings := sibD.length == 4 && sibM.length == 2 &&
+      sibD.all (fun r => R.bitEq r rDirect) && sibM.all (fun r => R.bitEq r rMain)
+    -- (i) `resolve_with_sample_rate`: same count / error as sampling, defaults 1, 0, 0
+    let mResolved := rawResolve fmulF reqF.common q.rate
+    let specExplicit :=
+      match explicitS, mResolved with
+      | .list [.atom "ex", n, sc, ph, dt], .total ex =>
+        n.asNat? == some ex.count &&
+          (match bitsOfAtom sc, bitsOfAtom ph, bitsOfAtom dt with
+           | some a, some b, some c =>
+             CF.bitEq ⟨floatOfBits a, 0.0⟩ ⟨ex.scale.re, 0.0⟩ && CF.bitEq ⟨floatOfBits b, 0.0⟩ ⟨ex.phase.re, 0.0⟩ &&
+               CF.bitEq ⟨floatOfBits c, 0.0⟩ ⟨ex.detuning.re, 0.0⟩
+           | _, _, _ => false) &&
+          (match rDirect with
+           | .crash => true
+           | _ => (rDirect.count?).map (fun t => decide (t == left + ex.count + right)) == some true)
+      | .list [.atom "err", .atom "range"], .err .outOfRange => R.sameShape rDirect (.err .outOfRange)
+      | .list [.atom "err", .atom "misaligned"], .err .misaligned => R.sameShape rDirect (.err .misaligned)
+      | _, _ => false
+    -- (j) the public slice function apply_phase_and_detuning on scale·envelope gives the samples
+    let specApd := !q.light || (match rApd with
+      | .skip => (match rBase with | .s _ _ _ => false | _ => true)
+      | _ => pairwise rDirect rApd (fun v => v) (if detZero then 1e-12 else 1e-10))
+    let specOk := specCount && specShape && specKnown && specPartial && specZero && specLinear && specDbl && specRot &&
+      specSiblings && specExplicit && specApd
     let fails :=
       (if agreeMain then [] else ["model-main"]) ++ (if agreeFilled then [] else ["model-filled"]) ++
       (if agreeVariants then [] else ["model-variants"]) ++ (if mirrorOk then [] else ["float-mirror"]) ++
@@ -409,7 +447,9 @@ def handle (inp out : Sexp) : CaseResult :=
       (if specCount then [] else ["spec-count"]) ++ (if specShape then [] else ["spec-shape"]) ++
       (if specKnown then [] else ["spec-known"]) ++ (if specPartial then [] else ["spec-partial"]) ++
       (if specZero then [] else ["spec-zero"]) ++ (if specLinear then [] else ["spec-linear"]) ++
-      (if specDbl then [] else ["spec-double"]) ++ (if specRot then [] else ["spec-rotate"])
+      (if specDbl then [] else ["spec-double"]) ++ (if specRot then [] else ["spec-rotate"]) ++
+      (if specSiblings then [] else ["spec-siblings"]) ++ (if specExplicit then [] else ["spec-explicit"]) ++
+      (if specApd then [] else ["spec-apd"])
     let nontrivial := match rDirect with
       | .err _ => true
       | _ => match rDirect.count? with | some n => n ≥ 1 | none => false
